@@ -2612,6 +2612,43 @@ impl Sess {
                 txs.push(t);
             }
         }
+        // a reorganisation detaches committed transactions which the pool takes back; submissions
+        // that spend a later input of such a transaction race with that re-admission
+        if depth > 0 {
+            let old = self.n_tip();
+            if let Some(fork) = self.tg.rc.ancestor_at(&old, tip_n - depth) {
+                let st_fork = self.tg.rc.replay(&fork);
+                let mut contested: Vec<(OutPoint, u64)> = vec![];
+                let mut b = old;
+                while b != fork {
+                    let rec = self.tg.rc.get(&b);
+                    for tx in rec.block.transactions().iter().skip(1) {
+                        if tx.inputs().len() < 2 {
+                            continue;
+                        }
+                        for op in tx.input_pts_iter().skip(1) {
+                            let key = op_key(&op);
+                            if let Some(c) = st_fork.cells.get(&key) {
+                                if let Ok(out) = packed::CellOutput::from_slice(&c.output) {
+                                    if out.type_().to_opt().is_none() && out.lock().code_hash() == self.gi.always_success_script.code_hash() {
+                                        let cap: u64 = out.capacity().into();
+                                        contested.push((op.clone(), cap));
+                                    }
+                                }
+                            }
+                        }
+                    }
+                    b = rec.parent;
+                }
+                for c in contested.iter().take(3) {
+                    let rate = self.min_fee_rate + 500 + self.xrng.below(2_000);
+                    if let Some(t) = self.simple_tx(std::slice::from_ref(c), rate, 0, &[], 5) {
+                        txs.push(t);
+                        r.c12.count("obs.storm.submissions_contesting_an_input_of_a_detached_transaction");
+                    }
+                }
+            }
+        }
         for t in &txs {
             self.known.insert(t.proposal_short_id(), t.clone());
         }
